@@ -47,11 +47,13 @@ const maxCompositeNesting = 20 // protect against malicious fonts
 // use the `glyf` table to fetch the contour points,
 // applying variation if needed.
 // for composite, recursively calls itself; allPoints includes phantom points and will be at least of length 4
-func (f *Face) getPointsForGlyph(gid tables.GlyphID, currentDepth int, allPoints *[]contourPoint /* OUT */) {
+// It returns false for an invalid glyph (out of range glyph index or component, too deeply nested composite),
+// in which case the content of allPoints must not be used.
+func (f *Face) getPointsForGlyph(gid tables.GlyphID, currentDepth int, allPoints *[]contourPoint /* OUT */) bool {
 	// adapted from harfbuzz/src/hb-ot-glyf-table.hh
 
 	if currentDepth > maxCompositeNesting || int(gid) >= len(f.glyf) {
-		return
+		return false
 	}
 
 	g := f.glyf[gid]
@@ -88,12 +90,11 @@ func (f *Face) getPointsForGlyph(gid tables.GlyphID, currentDepth int, allPoints
 			// recurse on component
 			var compPoints []contourPoint
 
-			f.getPointsForGlyph(item.GlyphIndex, currentDepth+1, &compPoints)
-
-			LC := len(compPoints)
-			if LC < phantomCount { // in case of max depth reached
-				return
+			if !f.getPointsForGlyph(item.GlyphIndex, currentDepth+1, &compPoints) {
+				// max depth reached or invalid component
+				return false
 			}
+			LC := len(compPoints)
 
 			/* Copy phantom points from component if USE_MY_METRICS flag set */
 			if item.HasUseMyMetrics() {
@@ -136,6 +137,7 @@ func (f *Face) getPointsForGlyph(gid tables.GlyphID, currentDepth int, allPoints
 			(*allPoints)[i].translate(tx, 0)
 		}
 	}
+	return true
 }
 
 // does not includes phantom points
@@ -193,7 +195,9 @@ func (f *Face) getGlyfPoints(gid tables.GlyphID, computeExtents bool) (ext Glyph
 		return
 	}
 	var allPoints []contourPoint
-	f.getPointsForGlyph(gid, 0, &allPoints)
+	if !f.getPointsForGlyph(gid, 0, &allPoints) {
+		return
+	}
 
 	copy(ph[:], allPoints[len(allPoints)-phantomCount:])
 
